@@ -30,8 +30,34 @@ def file_id(relpath: str) -> str:
 
 
 # ----------------------------------------------------------------------------------------- running pydoctor
+def _adjusting_system() -> Any:
+    """
+    A System subclass of the kind docs/source/customize.rst describes: privacyClass() asks the base class, then adjusts the
+    answer - here for the full names listed in the class attribute EXTRA (set by the job before the run).
+    """
+    from pydoctor import model
+
+    class AdjustingSystem(model.System):            # type: ignore[misc]
+        EXTRA: Dict[str, str] = {}
+
+        def privacyClass(self, ob: Any) -> Any:
+            base = super().privacyClass(ob)
+            adj = self.EXTRA.get(ob.fullName())
+            return model.PrivacyClass[adj] if adj else base
+    return AdjustingSystem
+
+
+def __getattr__(name: str) -> Any:                  # --system-class=harness.sitecrawl.AdjustingSystem (created on first use)
+    if name == "AdjustingSystem":
+        cls = _adjusting_system()
+        globals()["AdjustingSystem"] = cls
+        return cls
+    raise AttributeError(name)
+
+
 def run_pydoctor(srcpaths: Sequence[str], out: str, privacy: Sequence[str] = (), theme: str = "classic",
-                 extra: Sequence[str] = (), cwd: Optional[str] = None) -> Tuple[int, Any, str]:
+                 extra: Sequence[str] = (), cwd: Optional[str] = None,
+                 custom: Optional[Dict[str, str]] = None) -> Tuple[int, Any, str]:
     """driver.main in-process; returns (exit code, the System that was rendered, captured stdout)."""
     import contextlib
     import io
@@ -48,6 +74,10 @@ def run_pydoctor(srcpaths: Sequence[str], out: str, privacy: Sequence[str] = (),
     for p in privacy:
         args.append("--privacy=" + p)
     args += list(extra) + list(srcpaths)
+    if custom is not None:
+        import harness.sitecrawl as me
+        me.AdjustingSystem.EXTRA = dict(custom)
+        args[0:0] = ["--system-class=harness.sitecrawl.AdjustingSystem"]
     buf = io.StringIO()
     old = os.getcwd()
     driver.make = make
@@ -494,6 +524,13 @@ def _entries(soup: Any, page: str, site: Dict[str, Any], indexpage: bool = False
                 sub = li.find("ul", recursive=False)
                 if sub is not None:
                     walk(sub, name + ".")
+                    for cli in sub.find_all("li", class_="compact-modules", recursive=False):     # > 50 leaf modules
+                        for span in cli.find_all("span", recursive=False):
+                            c2 = span.find("code")
+                            if c2 is not None and c2.find("a") is None and c2.get_text().strip():
+                                site["entries"].append({"page": page, "kind": "moduleIndex", "file": "", "frag": "",
+                                                        "ref": name + "." + c2.get_text().strip(),
+                                                        "private": _has_private(span), "under_private": under_private(span)})
         tree = soup.find("ul", id="summaryTree")
         if tree is not None:
             walk(tree, "")
@@ -515,7 +552,7 @@ def run_site(job: Dict[str, Any]) -> Dict[str, Any]:
     out = job["out"]
     shutil.rmtree(out, ignore_errors=True)
     rc, system, log = run_pydoctor(job["src"], out, job.get("privacy", ()), job.get("theme", "classic"),
-                                   job.get("extra", ()), cwd=job.get("cwd"))
+                                   job.get("extra", ()), cwd=job.get("cwd"), custom=job.get("custom"))
     res: Dict[str, Any] = {"job": {k: v for k, v in job.items() if k != "model"}, "rc": rc, "log": log[-2000:]}
     if system is None or not Path(out).exists():
         res["error"] = "pydoctor produced no output"
